@@ -182,3 +182,30 @@ func VerifC14Nested() {
 	zz.Assert(r == interface{}(c14NestRef(n)), "C14.one-pass-result")
 	zz.Assert(q == interface{}("["+c14NestRef(n)+"][1]"), "C14.one-pass-result")
 }
+
+// groups that parse and validate but fail when they are evaluated, next to ones that fail earlier and ones that succeed
+var c14FailGroups = []string{"{{nosuchfunction()}}", "{{1 + \"x\"}}", "{{raise(\"E\", \"d\")}}", "{{[1][5]}}", "{{1 +}}", "{{a}}", "{{1 + 2}}"}
+
+// VerifC14FailingGroups: "... or an inline error marker if it fails": a literal of text, a first group, text, a second
+// group, text, both groups chosen from ones that fail at run time (unknown function, wrong operand kind, raise, index out
+// of range), fail at parse time, or succeed: the result is the one-pass reference (value text or "#<error>" per group).
+func VerifC14FailingGroups() {
+	erp, _ := zzProvider()
+	vs := zzScope()
+	vs.SetValue("a", "v")
+	g1 := c14FailGroups[zz.Choice("group1", len(c14FailGroups))]
+	g2 := c14FailGroups[zz.Choice("group2", len(c14FailGroups))]
+	lit := "x" + g1 + "y" + g2 + "z"
+	ast, err := parser.ParseWithRuntime("t", "\"placeholder\"", erp)
+	zz.Assert(err == nil && ast.Runtime.Validate() == nil, "C14.setup")
+	ast.Token.Val = lit
+	ast.Token.AllowEscapes = true
+	zz.Reach("before-eval")
+	res, err := ast.Runtime.Eval(vs, make(map[string]interface{}), 1)
+	zz.Reach("after-eval")
+	zz.Assert(err == nil, "C14.any-arrangement-yields-a-string")
+	str, ok := res.(string)
+	zz.Assert(ok, "C14.any-arrangement-yields-a-string")
+	ref, _ := c14Ref(erp, ast, lit, vs, 1)
+	zz.Assert(str == ref, "C14.one-pass-result")
+}
